@@ -24,15 +24,18 @@ RULE = ("KMeans::fit + predict on every 1-D data set of 2..5 rows over {0..4} (k
         "the seeding is unseeded) and on seeded random data sets of 2..120 (thorough: ..300) rows, 1..6 "
         "dimensions: lattice, integer blobs, few distinct rows replicated, continuous uniform / blobs, "
         "single precision; k in 2..8 with at least k distinct rows, max_iter in {1,2,3,5,10,30,100}, R "
-        "repeated fits per data set; rows one ulp apart (child process).  BBDTree::clustering on random "
+        "repeated fits per data set; offset families (small lattice rows + a common offset of ~1e9 / 2^30 per "
+        "column, results shifted back); the data sets for which Lloyd.tla reaches an empty cluster, refitted "
+        "2400 / 9000 times each; rows one ulp apart (child process).  BBDTree::clustering on random "
         "lattice data with 1..8 centroids drawn from: half-integer grid, copies of rows, coincident "
         "centroids, far outside the data, midpoints of two rows (exact ties), means of row subsets, and "
-        "Lloyd chains fed back as exact rationals; plus terminal states of the BbdFilter model. "
+        "Lloyd chains fed back as exact rationals, offset families; plus terminal states of the BbdFilter model. "
         "A case is non-trivial when TLC finds an exact tie between two centroids for some row, an empty "
         "cluster, or coincident centroids; distinct = distinct inputs (data, k, max_iter / data, centroids)")
 
-FIT_HITS = ("KMFit", "FitLattice", "FitCont", "FitF32", "Means", "PredictFx", "PredictExact", "PredictTie", "FitModel")
-BBD_HITS = ("Bbd", "BbdTie", "BbdCoincident", "BbdEmpty", "BbdRational", "BbdModel")
+FIT_HITS = ("KMFit", "FitLattice", "FitCont", "FitF32", "Means", "PredictFx", "PredictExact", "PredictTie", "FitModel",
+            "FitOffset", "FitOffsetExact", "EmptyCluster")
+BBD_HITS = ("Bbd", "BbdTie", "BbdCoincident", "BbdEmpty", "BbdRational", "BbdModel", "BbdOffset")
 
 
 def key_of(e, clause):
@@ -41,8 +44,8 @@ def key_of(e, clause):
         if clause == "FitStatus" and e.get("cls") == "ulp-down":
             return ("fit does not return: two rows one ulp apart in the split coordinate, midpoint rounds "
                     "to the lower row, half-gap >= 1e-10 (cls=ulp-down)")
-        return "KMFit %s: cls=%s prec=%s n=%d d=%d k=%d maxIter=%d" % (
-            clause, e.get("cls"), e.get("prec"), e["n"], e["d"], e["k"], e["maxIter"])
+        return "KMFit %s: cls=%s prec=%s n=%d d=%d k=%d maxIter=%d offmax=%s" % (
+            clause, e.get("cls"), e.get("prec"), e["n"], e["d"], e["k"], e["maxIter"], e.get("offmax"))
     if e["ev"] == "Bbd":
         return "Bbd %s: cls=%s n=%d d=%d k=%d cd=%s" % (clause, e.get("cls"), e["n"], e["d"], e["k"],
                                                          sorted(set(e["cd"])))
@@ -51,8 +54,8 @@ def key_of(e, clause):
 
 def input_digest(e):
     if e["ev"] == "KMFit":
-        return vlib.digest(["F", e["X"], e["k"], e["maxIter"], e["prec"]])
-    return vlib.digest(["B", e["X"], e["cn"], e["cd"]])
+        return vlib.digest(["F", e["X"], e["k"], e["maxIter"], e["prec"], e.get("off")])
+    return vlib.digest(["B", e["X"], e["cn"], e["cd"], e.get("off")])
 
 
 def validate(ctx, events, path, model_states=None):
@@ -86,6 +89,22 @@ def run(ctx):
     if ctx.thorough and not skip_models:
         ctx.tlc_mc("cluster/Lloyd.tla", "cluster/LloydMC_thorough.cfg", timeout=3000, must_cover=lcover)
         ctx.tlc_mc("cluster/Lloyd.tla", "cluster/LloydMC2d_thorough.cfg", timeout=3000, must_cover=lcover)
+    # Lloyd.tla lists the data sets for which some seeding empties a cluster (INFO lines); the harness
+    # refits exactly those many times -- repetition is the only lever on the unseeded k-means++ draw.
+    _, eprints = ctx.tlc_mc("cluster/Lloyd.tla", "cluster/LloydEC_%s.cfg" % tier, timeout=2400,
+                            must_cover=tuple(a for a in lcover if a != "UpdateStop"),
+                            keep_prints=True, tag="mc-LloydEC")
+    ec = {}
+    for p in eprints:
+        if p and p[0] == "INFO":
+            d = json.loads(p[1])
+            ec[json.dumps([d["X"], d["k"]])] = {"X": d["X"], "k": d["k"]}
+    if not ec:
+        raise vlib.ToolError("Lloyd.tla reached no empty cluster in LloydEC_%s.cfg" % tier)
+    f_ec = ctx.path("c12-empty-configs.ndjson")
+    vlib.write_ndjson(f_ec, [ec[kk] for kk in sorted(ec)])
+    f_refit = ctx.path("c12-refit.ndjson")
+    ctx.harness("refit", f_ec, f_refit)
     cover = ("BLeaf", "BSplit", "BLowerDone", "BUpperDone", "Choose", "FDescend", "FAbsorbLeaf", "FAbsorbPruned")
     if not skip_models:
         ctx.tlc_mc("cluster/BbdFilter.tla", "cluster/BbdFilterMC_%s.cfg" % tier, must_cover=cover, timeout=2400)
@@ -112,7 +131,7 @@ def run(ctx):
         for tok in pp.stdout.split():
             if tok.startswith("skipped="):
                 skipped += int(tok.split("=")[1])
-    events = vlib.read_ndjson(f_fit) + vlib.read_ndjson(f_bbd) + vlib.read_ndjson(rp_out)
+    events = vlib.read_ndjson(f_fit) + vlib.read_ndjson(f_refit) + vlib.read_ndjson(f_bbd) + vlib.read_ndjson(rp_out)
     v, bads = validate(ctx, events, ctx.path("c12-all.ndjson"), f_model)
     for (l, runid, ev, clause) in bads:
         e = events[l - 1]
@@ -123,8 +142,16 @@ def run(ctx):
     missing = [h for h in FIT_HITS + BBD_HITS if v.get("hits", {}).get(h, 0) == 0]
     if missing and not ctx.violations:
         raise vlib.ToolError("vacuous trace run: clauses %s never exercised" % missing)
+    # "k finite centroids" when a cluster loses all its members: count the real fits that ended with an
+    # empty cluster and passed every clause (multiplicities of the compressed refit record included)
+    refits = sum(e.get("mult", 1) for e in events if e.get("cls") == "refit")
+    empty_fits = sum(events[l - 1].get("mult", 1) for l in v.get("empties", []))
+    vlib.log("[empty-cluster] %d data sets listed by Lloyd.tla, %d refits, %d ended with an empty cluster and finite centroids"
+             % (len(ec), refits, empty_fits))
+    if empty_fits == 0 and not ctx.violations:
+        raise vlib.ToolError("vacuous run: no fit with an empty cluster observed in %d refits" % refits)
     # ---- measurement for the evidence file
-    ctx.evaluations = len(events)
+    ctx.evaluations = sum(e.get("mult", 1) for e in events)
     ctx.traces = len(events)
     ctx.drift = len(v.get("drift", []))
     if ctx.drift:
@@ -137,9 +164,14 @@ def run(ctx):
     ctx.extra["unconstrained_events"] = hits.get("Unconstrained", 0)
     ctx.extra["replayed_model_states"] = len(cases)
     ctx.extra["lloyd_terminal_states"] = len(lstates)
+    ctx.extra["empty_cluster_configs_from_model"] = len(ec)
+    ctx.extra["refits_of_empty_cluster_configs"] = refits
+    ctx.extra["fits_with_empty_cluster_observed"] = empty_fits
     ctx.extra["not_covered"] = [
         "centroid means of non-dyadic / continuous data are checked at 2^-12 absolute only",
         "predict on continuous or single-precision data, or with an empty cluster, is checked at 2^-8 (near-ties accepted)",
+        "offset families are double precision only (a single-precision centroid at offset 2^12 is not known to 2^-12); "
+        "the distortion of the filtering step at offset ~1e9 is checked to 2^-2 only",
         "k-means++ draw with cutoff exactly 0 (probability 2^-53) is not modelled",
     ]
     fits = [e for e in events if e["ev"] == "KMFit" and e["status"] == "ok"]
